@@ -1,9 +1,9 @@
 #!/bin/bash
 # multi-seed false-alarm soak of the quick checks
-cd /verif
+cd "$(dirname "$0")/.."
 for seed in 20261003 1 5 7 8 10 19 20 21; do
   for p in C05 C13 C14 C15 C16 C19 C20; do
-    out=$(VERIF_SEED=$seed timeout 400 /venv/bin/python check.py $p --tier quick --no-evidence 2>&1 | grep -E "violation|VIOLATION|HARNESS|KNOWN|quick:" | cut -c1-260)
+    out=$(VERIF_SEED=$seed timeout 400 /venv/bin/python ./check.py $p --tier quick --no-evidence 2>&1 | grep -E "violation|VIOLATION|HARNESS|KNOWN|quick:" | cut -c1-260)
     echo "seed=$seed $out"
   done
 done
